@@ -38,6 +38,11 @@ package main
 //@   ensures [C18] a_file_is_always_named: result1 == nil && result0.help == nil ==> result0.file != ""
 //@   ensures [C18] dump_target_is_known: result1 == nil && result0.help == nil && result0.bdump ==> result0.bdumpFile != ""
 //@   ensures [C18] load_source_is_unambiguous: result1 == nil && result0.help == nil && result0.bload && result0.bloadFile != "" ==> result0.file == result0.bloadFile
+//@   assert [C18] dump_flag_value_needs_an_equals_sign: at Errorf#1: len(arg) > len("--bdump")
+//@   assert [C18] load_flag_value_needs_an_equals_sign: at Errorf#2: len(arg) > len("--bload")
+//@   assert [C18] only_a_cluster_can_be_a_bad_cluster: at Errorf#3: len(arg) > 2 && arg[0] == '-'
+//@   assert [C18] a_lone_dash_is_not_a_flag: at Errorf#4: len(arg) > 1 && arg[0] == '-'
+//@   assert [C18] one_file_at_most: at Errorf#5: len(rest) > 1
 //@   loop 1 invariant len(args) >= 0 && a.help == nil && (cap(rest) == 0 || (isnew(rest) && arr(rest) != arr(args)))
 //@   loop 2 invariant len(args) >= 1 && a.help == nil && (cap(rest) == 0 || (isnew(rest) && arr(rest) != arr(args))) && len(rest) == prev(len(rest)) && arr(rest) == prev(arr(rest)) && (forall i int :: 0 <= i && i < len(rest) ==> rest[i] == prev(rest[i]))
 //@   loop 2 invariant cap(oneLetterFlags) == 0 || (isnew(oneLetterFlags) && arr(oneLetterFlags) != arr(rest))
